@@ -26,7 +26,7 @@
         are the right call chain of that card *)
 From Coq Require Import NArith ZArith List Bool.
 From Cao Require Export CheckUtil CardAst Compiler Vm.
-From Cao Require Import Bits VmFloat VmCheck.
+From Cao Require Import Bits VmFloat VmCheck C15Link.
 From Cao Require CardEdit.
 Import ListNotations.
 Local Open Scope N_scope.
@@ -148,19 +148,6 @@ Definition kinds_agree (m : module) (trace : list loc) (res : list resolved) : b
   forallb (fun tr => rkind_eqb (model_kind m (fst tr)) (r_kind (snd tr))) (zip trace res).
 
 (* ------------------------------------------------------------------ the models' prediction *)
-Fixpoint index_trace (i : N) (l : list (N * loc)) : list (N * N) :=
-  match l with
-  | [] => []
-  | (a, _) :: r => (a, i) :: index_trace (i + 1) r
-  end.
-
-Definition to_vm (B : compiled) : Vm.program :=
-  Vm.mkProgram (p_bytecode B) (Compiler.p_data B) (Compiler.p_labels B) (p_ids B) (p_names B)
-               (index_trace 0 (Compiler.p_trace B)).
-
-Definition trace_loc (B : compiled) (id : N) : loc :=
-  snd (nth (N.to_nat id) (Compiler.p_trace B) (0, loc_default)).
-
 Definition default_limit : N := 64.
 
 Inductive prediction :=
@@ -383,7 +370,8 @@ Definition model_codes_run (debug : bool) (m : module) (budget : N) (e : err) (t
    | _ => [1]
    end) ++
   (if kinds_agree m trace res then [] else [1]) ++
-  (if trace_resolves_of m r then [] else [1]).
+  (if trace_resolves_of m r then [] else [1]) ++
+  (match r with COk B => if keys_increasing (Compiler.p_trace B) then [] else [1] | _ => [] end).
 
 Definition model_codes_comp (debug : bool) (m : module) (e : cerr) (l : option loc) (res : option resolved) : list N :=
   (match compile_default debug m with
